@@ -10,7 +10,6 @@ NA = {
  "C09": "price selection is a label-correcting search over BinaryHeap + nested HashMap entry API + partition_point closures; no vstd spec, Kani cannot run HashMap/Decimal arithmetic, and the proof is a protocol-level inductive invariant; only the division-by-zero obligation of insert_price is kept (C06/C01)",
  "C10": "convert_amount / Ledger::balance are folds over impl-Iterator wrappers and adapter chains with an or_insert_with(closure) cache; no contract within reach expresses 'every entry converted exactly once'",
  "C11": "load_impl recurses through a FileSystem trait, glob, PathBuf and an FnMut callback; the real file system has no specification and the fake one is a HashMap<PathBuf,_> Kani cannot execute",
- "C13": "determinism across processes is a 2-safety property over hash seeds; the order-sensitive code is Display plumbing and adapter chains that cannot be extracted; the one order-sensitive value (SingleAmount from a multi-commodity Amount) is decided under C08 (and was a genuine defect, fixed)",
  "C15": "read-back of importer output is parse∘display = id (same obstacle as C05); its numeric clause is decided under C07",
 }
 
